@@ -43,10 +43,13 @@ def gen_params(r, V, scale, nt):
     for _ in range(nt):
         ft.append((r.choice([0.0, 1e-3 * r.uniform(0.2, 3.0), 5e-4]),
                    r.choice([0.0, 0.0, 2e-3 * s2 * r.uniform(0.2, 3.0)])))
+    corner = r.randint(0, 7) == 0      # every face type tension-free, membrane elastic: gamma_eff = (k/A0)(A/A0 - 1) only
+    if corner:
+        ft = [(0.0, b) for (_, b) in ft]
     p = {
         "K": r.choice([0.0, 2500.0 * r.uniform(0.5, 2.0), 1.0]),
         "maxP": r.choice([float("inf"), float("inf"), 50.0 * r.uniform(0.1, 2.0)]),
-        "aem": r.choice([0.0, 1e-3 * r.uniform(0.2, 3.0)]),
+        "aem": 1e-3 * r.uniform(0.2, 3.0) if corner else r.choice([0.0, 1e-3 * r.uniform(0.2, 3.0)]),
         "iso": r.uniform(50.0, 300.0),
         "angf": r.choice([0.0, 1e-3 * scale * r.uniform(0.2, 3.0)]),
         "minvol": r.choice([0.0, 0.0, V * r.uniform(0.5, 1.5)]),
@@ -158,14 +161,67 @@ def oracle_sum_of_terms(case, ans):
     prelude): catches a term applied with stale cell scalars, applied twice, or left out"""
     Fa = ans["forces"]["all"]
     parts = [ans["forces"][t] for t in ("pressure", "tension", "bending", "angle")]
+    # scale: the largest node force of each term (a node force is itself a sum of face contributions that may cancel)
+    mag = sum(max(max(abs(z) for z in q) for q in p) for p in parts if p)
     for i in range(len(Fa)):
         for k in range(3):
             s = sum(p[i][k] for p in parts)
-            mag = sum(abs(p[i][k]) for p in parts)
             if not (abs(Fa[i][k] - s) <= 1e-9 * mag + 1e-300):
                 return [("force left by apply_internal_forces differs from the sum of the four terms",
                          {"node": i, "axis": k, "all": Fa[i][k], "sum_of_terms": s, "P": ans["P"]})]
     return []
+
+
+def cell_scalars(case):
+    """area, volume, target volume, pressure, target area recomputed from their definitions (exact volume)"""
+    v, f = case["v"], case["f"]
+    VF = {}
+    for t in f:
+        for i in t:
+            if i not in VF:
+                VF[i] = U.fr3(v[i])
+    v6 = Fr(0)
+    mag = 0.0
+    area = Decimal(0)
+    for t in f:
+        a, b, c = t
+        term = U.dot(VF[a], U.cross(VF[b], VF[c]))
+        v6 += term
+        pa, pb, pc = v[a], v[b], v[c]      # the six triple products compute_volume adds for this face
+        mag += (abs(pc[0] * pb[1] * pa[2]) + abs(pb[0] * pc[1] * pa[2]) + abs(pc[0] * pa[1] * pb[2])
+                + abs(pa[0] * pc[1] * pb[2]) + abs(pb[0] * pa[1] * pc[2]) + abs(pa[0] * pb[1] * pc[2]))
+        area += U.area_exact(VF, t)
+    p = case["p"]
+    V = abs(float(v6)) / 6.0
+    tv = p["tvol"] + p["dt"] * p["growth"]
+    if tv < p["minvol"]:
+        tv = p["minvol"]
+    try:
+        P = -p["K"] * math.log(V / tv)
+    except (ValueError, ZeroDivisionError):
+        P = float("nan")
+    if P > p["maxP"]:
+        P = p["maxP"]
+    At = (p["iso"] * V * V) ** (1.0 / 3.0)
+    return {"V": V, "Vtol": 1e-13 * mag / 6.0 + 1e-300, "A": float(area), "tvol": tv, "P": P, "At": At}
+
+
+def oracle_scalars(case, ans, sc):
+    """the scalars the cell holds after apply_internal_forces are what their definitions say (a force term that is
+    skipped, or run with stale scalars, leaves them behind)"""
+    out = []
+    relV = sc["Vtol"] / sc["V"] if sc["V"] > 0 else 0.0
+    checks = [("volume", ans["V"], sc["V"], sc["Vtol"] + 1e-14 * sc["V"]),
+              ("area", ans["A"], sc["A"], 1e-12 * sc["A"]),
+              ("target area cbrt(q0 V^2)", ans["At"], sc["At"], (1e-12 + relV) * sc["At"]),
+              ("pressure -K ln(V/V0) capped", ans["P"], sc["P"], abs(case["p"]["K"]) * (relV + 1e-13) + 1e-12 * abs(sc["P"]))]
+    for name, got, want, tol in checks:
+        if math.isnan(want) and math.isnan(got):
+            continue
+        if not (abs(got - want) <= tol):
+            out.append(("cell scalar '%s' after apply_internal_forces differs from its definition" % name,
+                        {"scalar": name, "cell": got, "definition": want, "tolerance": tol}))
+    return out
 
 
 def oracle_dV(case, ans, r, nsamp):
@@ -175,7 +231,7 @@ def oracle_dV(case, ans, r, nsamp):
     P = ans["P"]
     Fp = ans["forces"]["pressure"]
     fan = fans(f)
-    nodes = list(range(len(v)))
+    nodes = sorted(fan)          # the nodes that carry faces (node slots left unused by a merge carry none)
     r.shuffle(nodes)
     VF = {}
 
@@ -207,16 +263,19 @@ def oracle_dV(case, ans, r, nsamp):
     return out, checked
 
 
-def oracle_dA(case, ans, r, nsamp):
+def oracle_dA(case, ans, r, nsamp, sc):
     """tension/elasticity force on node i == - sum over adjacent faces gamma_eff(face) * dA_face/dx_i
     (central differences of the exact areas, 60 significant digits)"""
     out = []
     v, f = case["v"], case["f"]
-    A, At = ans["A"], ans["At"]
+    A, At = sc["A"], sc["At"]       # from the definitions, not from the cell
     aem = case["p"]["aem"]
+    # the cell's own volume carries the cancellation error of compute_volume; through A0 = cbrt(q0 V^2) it moves gamma_eff
+    relAt = (sc["Vtol"] / sc["V"] + 1e-14) if sc["V"] > 0 else 0.0
+    dgam = abs(aem / At) * (2.0 * A / At + 1.0) * relAt if At != 0 else 0.0
     Ft = ans["forces"]["tension"]
     fan = fans(f)
-    nodes = list(range(len(v)))
+    nodes = sorted(fan)
     r.shuffle(nodes)
     checked = 0
     for i in nodes[:nsamp]:
@@ -231,6 +290,7 @@ def oracle_dA(case, ans, r, nsamp):
         for k in range(3):
             want = Decimal(0)
             mag = 0.0
+            slack = 0.0
             for (fi, a, b, c) in tris:
                 xb, xc = U.fr3(v[b]), U.fr3(v[c])
                 area0 = U.area_exact({0: xi, 1: xb, 2: xc}, (0, 1, 2))
@@ -244,8 +304,9 @@ def oracle_dA(case, ans, r, nsamp):
                 gam = case["ft"][case["ftype"][fi]][0] + (aem / At) * (A / At - 1.0) if At != 0 else float("nan")
                 want += Decimal(gam) * dA * Decimal(-1)
                 mag += abs(gam) * vnorm(U.sub(v[b], v[c])) * 0.5
+                slack += dgam * vnorm(U.sub(v[b], v[c])) * 0.5
             got = Ft[i][k]
-            tol = GRAD_TOL * mag + 1e-300
+            tol = GRAD_TOL * mag + slack + 1e-300
             checked += 1
             if not (abs(float(want) - got) <= tol):
                 out.append(("tension force differs from minus the effective tension times the area gradient",
@@ -310,6 +371,69 @@ def oracle_equiv(case, ans, ans2, Mf):
 
 
 # ---------------------------------------------------------------- run
+def gen_refine_case(r, tier, fixed=None):
+    """a closed mesh in which a few nodes have been pushed next to a neighbour, so that the real refine_mesh merges
+    those edges (two face slots and one node slot become unused per merge); optionally l_max small enough for splits"""
+    if fixed is None:
+        while True:
+            c = gen_case(r, "quick", small=False)
+            if 60 <= len(c["f"]) <= (700 if tier == "quick" else 1400):
+                break
+    else:
+        c = fixed
+    v, f = [list(p) for p in c["v"]], c["f"]
+    el = []
+    for (a, b, cc) in f:
+        for (i, j) in ((a, b), (b, cc), (cc, a)):
+            if i < j:
+                el.append((vnorm(U.sub(v[i], v[j])), i, j))
+    lmin_e = min(e[0] for e in el)
+    lmax_e = max(e[0] for e in el)
+    l_min = 0.5 * lmin_e
+    touched = set()
+    nshort = r.randint(1, 4)
+    r.shuffle(el)
+    made = 0
+    for (_, i, j) in el:
+        if made >= nshort:
+            break
+        nb = set()
+        for t in f:
+            if i in t or j in t:
+                nb.update(t)
+        if nb & touched:
+            continue
+        touched |= nb
+        d = [r.normal() for _ in range(3)]
+        dn = vnorm(d)
+        v[i] = [v[j][k] + 0.3 * l_min * d[k] / dn for k in range(3)]
+        made += 1
+    c = dict(c)
+    c["v"] = v
+    c["l_min"] = l_min
+    c["l_max"] = r.choice([10.0 * lmax_e, 10.0 * lmax_e, 0.8 * lmax_e])
+    c["swap"] = r.randint(0, 1)
+    c["kind"] = "refined:" + c.get("kind", "?")
+    c["offk"] = c.get("offk", 0)
+    return c
+
+
+def compare_answers(a, m):
+    """model vs implementation -> None or a text"""
+    bad = None
+    for key in ("P", "V", "A", "At"):
+        if not vlib.close(a[key], m[key], 64, 0.0):
+            bad = "%s impl=%r model=%r" % (key, a[key], m[key])
+    for t in U.TERMS:
+        FA, FM = a["forces"][t], m["forces"][t]
+        mx = max(max(abs(z) for z in p) for p in FA)
+        for j, (p, q) in enumerate(zip(FA, FM)):
+            if not all(vlib.close(x, y, 256, 1e-11 * mx) for x, y in zip(p, q)):
+                bad = bad or "term %s node %d impl=%r model=%r" % (t, j, p, q)
+                break
+    return bad
+
+
 def build():
     return vlib.build_repo.build_harness(HARNESS, "h_forces", link_repo=True)
 
@@ -318,10 +442,12 @@ def check_case(case, line, ans, r, nsamp, exe, do_equiv):
     """all oracle checks of one case -> list of (what, detail)"""
     res = list(oracle_balance(case, ans))
     res += oracle_sum_of_terms(case, ans)
+    sc = cell_scalars(case)
+    res += oracle_scalars(case, ans, sc)
     stats = {"dV": 0, "dA": 0, "equiv": 0}
     o, n = oracle_dV(case, ans, r.fork("dV"), nsamp)
     res += o; stats["dV"] = n
-    o, n = oracle_dA(case, ans, r.fork("dA"), max(1, nsamp // 3))
+    o, n = oracle_dA(case, ans, r.fork("dA"), max(1, nsamp // 3), sc)
     res += o; stats["dA"] = n
     if do_equiv:
         c2, Mf = moved_copy(case, r.fork("mv"))
@@ -402,6 +528,7 @@ def run(ctx):
         dist["pressure_on"] += a["P"] != 0
         dist["angle_on"] += c["p"]["angf"] != 0
         dist["elasticity_on"] += c["p"]["aem"] != 0
+        dist["tensionless_elastic"] = dist.get("tensionless_elastic", 0) + (all(t == 0 for (t, _) in c["ft"]) and c["p"]["aem"] != 0)
         dist["pressure_capped"] += a["P"] == c["p"]["maxP"]
         dist["minvol_clamp"] += c["p"]["minvol"] > c["p"]["tvol"] + c["p"]["dt"] * c["p"]["growth"]
         if i < 3:
@@ -446,6 +573,80 @@ def run(ctx):
                     if disagreements <= 3:
                         V.fail_tie("correspondence", "model and implementation differ (%s, %d faces): %s" % (c.get("kind"), nf, bad),
                                    line=lines[i] if nf <= 200 else "(large mesh, seed %d case %d)" % (seed, i))
+    # ---- cells that went through the real refine_mesh since their last rebase (unused face / node slots)
+    nref = 40 if tier == "quick" else 400
+    if not proof["ok"]:
+        nref = max(nref, 80)
+    v0, f0 = U.icosahedron()
+    v0, f0 = U.subdivide(U.normalize(v0), f0)
+    v0 = U.normalize(v0)
+    f0 = U.orient_outward(v0, f0)
+    fixed = {"v": v0, "f": f0, "ftype": [i % 2 for i in range(len(f0))], "ft": [(1e-3, 1e-3), (5e-4, 0.0)],
+             "p": {"K": 100.0, "maxP": float("inf"), "aem": 1e-2, "iso": 120.0, "angf": 1e-3, "minvol": 0.0, "growth": 0.0,
+                   "tvol": 4.5, "dt": 1.0}, "kind": "corpus:icosphere80", "scale": 1.0, "offk": 0}
+    rr = r.fork("refine")
+    rcases = [gen_refine_case(rr, tier, fixed)] + [gen_refine_case(rr, tier) for _ in range(nref)]
+    rcases = [rcases[0]] + sorted(rcases[1:], key=lambda c: len(c["f"]))
+    rlines = [U.refine_line_of(c) for c in rcases]
+    rimpl, rrc, rerr = vlib.run_lines(exe, rlines, timeout=1800)
+    if rrc != 0 or len(rimpl) != len(rlines):
+        V.fail_input("harness ended abnormally on a refined cell (rc=%s): %s" % (rrc, rerr[-600:]),
+                     {"line": rlines[min(len(rimpl), len(rlines) - 1)]}, key=None)
+    refs = [U.parse_refined(x) for x in rimpl]
+    slines = [U.slots_line_of(c, ref) if ref else "slots 0 0 0 0" for c, ref in zip(rcases, refs)]
+    rmodel = None
+    if os.path.exists(drv):
+        rmodel, rc3, err3 = vlib.run_lines(drv, slines, timeout=1800)
+        if rc3 != 0 or len(rmodel) != len(slines):
+            V.fail_tie("correspondence", "model driver ended abnormally on the refined cells (rc=%s) %s" % (rc3, err3[-300:]))
+            rmodel = None
+    refstat = {"cases": len(rcases), "rejected": 0, "with_unused_face_slots": 0, "unused_face_slots": 0, "unused_node_slots": 0,
+               "faces_added_by_splits": 0, "model_bit_identical": 0}
+    for i, (c, ref) in enumerate(zip(rcases, refs)):
+        if ref is None:
+            refstat["rejected"] += 1       # refine_mesh threw (mesh_integrity_exception): allowed, nothing to check
+            continue
+        unused = sum(1 for sl in ref["slots"] if not sl[0])
+        refstat["with_unused_face_slots"] += unused > 0
+        refstat["unused_face_slots"] += unused
+        refstat["unused_node_slots"] += sum(1 for u in ref["used_nodes"] if not u)
+        refstat["faces_added_by_splits"] += max(0, len(ref["slots"]) - len(c["f"]))
+        lc = U.live_case(c, ref)
+        inp = {"line": rlines[i], "kind": c.get("kind"), "nodes": len(ref["v"]), "faces": len(lc["f"]), "unused_face_slots": unused}
+        prob = U.edge_set_problem(ref)
+        if prob or not U.is_closed_oriented(lc["f"]):
+            what = "refined cell is not a closed oriented surface with a matching edge set"
+            if what not in seen_what:
+                seen_what.add(what)
+                V.fail_input(what, dict(inp, detail=prob), key=None)
+            continue
+        res, st = check_case(lc, rlines[i], ref, r.fork("ref%d" % i), nsamp, exe, False)
+        checks["balance"] += 10
+        for k in st:
+            checks[k] += st[k]
+        for what, detail in res:
+            oracle_fail += 1
+            what = what + " (cell with unused slots after refine_mesh)" if unused else what
+            if what not in seen_what:
+                seen_what.add(what)
+                V.fail_input(what, dict(inp, detail=detail), key=None)
+        if rmodel is not None:
+            m = U.parse_answer(rmodel[i], len(ref["v"]))
+            if m is None:
+                disagreements += 1
+                if disagreements <= 3:
+                    V.fail_tie("correspondence", "model gives no answer on refined case %d (%s): %r" % (i, c.get("kind"), rmodel[i][:60]))
+                continue
+            bad = compare_answers(ref, m)
+            if bad:
+                disagreements += 1
+                if disagreements <= 3:
+                    V.fail_tie("correspondence", "model and implementation differ on a refined cell (%s, %d faces, %d unused slots): %s"
+                               % (c.get("kind"), len(lc["f"]), unused, bad), line=rlines[i] if len(c["f"]) <= 200 else "(large mesh)")
+            else:
+                refstat["model_bit_identical"] += sum(len(ref["forces"][t]) for t in U.TERMS) == sum(len(m["forces"][t]) for t in U.TERMS) and \
+                    all(ref["forces"][t] == m["forces"][t] for t in U.TERMS)
+    dist["refined_cells"] = refstat
     rcode, nviol = V.finish()
     cov = {
         "obligations": proof["obligations"], "discharged": proof["discharged"],
@@ -459,8 +660,8 @@ def run(ctx):
         "theorems": {k: v for k, v in proof["axioms"].items()},
         "proof_failures": proof["failures"],
         "translator": gen,
-        "evaluations": len(cases), "distinct_nontrivial": len(set(lines)),
-        "rule": "seeded closed meshes: subdivided icosahedra / octahedra / tetrahedra and UV spheres (4..2600 faces), optionally ellipsoidal, dented (concave hinges), jittered, randomly rotated, scaled 1e-6..1, offset 0..1000 sizes; 1-3 face types with zero / non-zero tension and bending modulus; zero / non-zero bulk modulus, elasticity, angle factor; capped pressure; min-volume clamp; + corpus (test_cell.vtk of the known bending defect, icosahedron at 10, octahedron (3,2,1)); distinct = distinct request lines",
+        "evaluations": len(cases) + len(rcases), "distinct_nontrivial": len(set(lines)) + len(set(rlines)),
+        "rule": "seeded closed meshes: subdivided icosahedra / octahedra / tetrahedra and UV spheres (4..2600 faces), optionally ellipsoidal, dented (concave hinges), jittered, randomly rotated, scaled 1e-6..1, offset 0..1000 sizes; 1-3 face types with zero / non-zero tension and bending modulus; zero / non-zero bulk modulus, elasticity, angle factor; capped pressure; min-volume clamp; 1 case in 8 with every face type tension-free and a non-zero area elasticity; + corpus (test_cell.vtk of the known bending defect, icosahedron at 10, octahedron (3,2,1)); + cells with 1-4 edges shortened below l_min that went through the real local_mesh_refiner::refine_mesh (merges leave unused face/node slots; 1/3 also split; edge swaps on/off), forces of the refined cell vs the slot model; distinct = distinct request lines",
         "distribution": dist, "oracle_checks": checks, "oracle_failures": oracle_fail,
         "model_vs_impl_bit_identical": bit_identical, "model_vs_impl_disagreements": disagreements,
         "repo_objects_rebuilt": rebuilt, "samples": samples,
@@ -483,9 +684,19 @@ def replay(ctx):
         print("replay file names no input: %s" % json.dumps(rp.get("no_longer_checks", rp))[:2000])
         return 1
     exe, _ = build()
-    case = U.case_of_line(line)
+    refined = line.startswith("refine")
     out, rc, err = vlib.run_lines(exe, [line])
-    a = U.parse_answer(out[0], len(case["v"])) if out else None
+    if refined:
+        case0 = U.case_of_refine_line(line)
+        a = U.parse_refined(out[0]) if out else None
+        case = U.live_case(case0, a) if a else case0
+        if a:
+            print("refine_mesh(l_min=%g, l_max=%g): %d face slots (%d unused), %d node slots (%d unused)" % (
+                case0["l_min"], case0["l_max"], len(a["slots"]), sum(1 for s in a["slots"] if not s[0]),
+                len(a["v"]), sum(1 for u in a["used_nodes"] if not u)))
+    else:
+        case = U.case_of_line(line)
+        a = U.parse_answer(out[0], len(case["v"])) if out else None
     print("mesh: %s, %d nodes, %d faces; stored failure: %s" % (inp.get("kind"), len(case["v"]), len(case["f"]), fi.get("what")))
     if a is None:
         print("VIOLATION property=C02 replay=%s" % ctx.get("replay_path", "-"))
@@ -494,7 +705,7 @@ def replay(ctx):
     for term in U.TERMS:
         s, sa, t, ta = net(case["v"], a["forces"][term])
         print("  %-9s sum|F|=%.3e  |sumF|/sum|F|=%.2e  |sumT|/sum|x||F|=%.2e" % (term, sa, s / sa if sa else 0.0, t / ta if ta else 0.0))
-    res, _ = check_case(case, line, a, Rng(1), 16, exe, True)
+    res, _ = check_case(case, line, a, Rng(1), 16, exe, not refined)
     if res:
         print("VIOLATION property=C02 replay=%s" % ctx.get("replay_path", "-"))
         for what, detail in res[:6]:
